@@ -2,13 +2,13 @@
 
 (M) TLC exhausts specs/rowdelete/RowDelete.tla: every predicate of the bounded grammar (comparison,
     IS [NOT] NULL, [NOT] IN incl. NULL in the list, [NOT] LIKE prefix, AND/OR/NOT, depth <= 2) x every
-    layout of the row universe over <= 3 files, Kleene evaluation, the delete automaton as written
-    (Keep = "not_p": affected files = files with a TRUE row, rewrite keeps NOT(p)).  The as-written
-    model is checked against ImplSafe/AsWritten, the repaired variant (Keep = "is_not_true") against
-    the property PropExact; thorough also records TLC's counterexample of PropExact on the as-written
-    model (a candidate, never a verdict).
+    layout of the row universe over <= 3 files, Kleene evaluation, the delete automaton as the code
+    is now (Keep = "is_not_true": affected files = files with a TRUE row, rewrite keeps
+    (p) IS NOT TRUE -- fix f4599fa) and checks ImplSafe and the property PropExact.  Negative
+    control: Neg_small.cfg (Keep = "not_p", the behaviour before the fix) must violate PropExact,
+    otherwise the run is an InfraError (vacuous property).
 (G) the same run emits every (predicate, layout) case with the truth vector, the property's expected
-    outcome and the as-written prediction.  Cases are de-duplicated by (layout, truth vector) and the
+    outcome and the model's prediction.  Cases are de-duplicated by (layout, truth vector) and the
     Go driver replays them into the REAL handler (internal/api/delete.go via fiber, dry run then
     confirmed) on real Parquet files; the verdict compares the rows read back with the expected
     outcome (oracle = the spec's Kleene evaluation, which the property names), DuckDB's evaluation
@@ -38,11 +38,7 @@ def run(ctx):
     th.start()
     try:
         gen = ctx.tlc("rowdelete", "RowDelete", "Gen_%s.cfg" % size, coverage=ctx.quick(), timeout=2400, workers=6)
-        fixed = ctx.tlc("rowdelete", "RowDelete", "MC_%s_fixed.cfg" % ("small" if ctx.quick() else "small"),
-                        timeout=2400, workers=6)
-        cand = None
-        if not ctx.quick():
-            cand = ctx.tlc("rowdelete", "RowDelete", "Cand_small.cfg", timeout=1200, workers=6, allow_violation=True)
+        neg = ctx.tlc("rowdelete", "RowDelete", "Neg_small.cfg", timeout=1200, workers=6, allow_violation=True)
     finally:
         th.join()
     if "err" in built:
@@ -56,17 +52,17 @@ def run(ctx):
         for a in ("DryRun", "FindAffected", "RewriteCopy", "RewriteRemove"):
             if gen.coverage.get(a, (0, 0))[0] == 0:
                 raise InfraError("vacuous model: action %s never fired" % a)
+    if neg.violated != "PropExact":
+        raise InfraError("negative control: the pre-fix variant (Keep = \"not_p\") does not violate PropExact -- the property is vacuous")
     model_breaks = sum(1 for c in cases if c["impl"] != c["expected"] or c["impl_deleted"] != c["expected_count"])
-    ctx.note("tlc_as_written", {"cfg": "Gen_%s.cfg" % size, "distinct": gen.distinct, "generated": gen.generated, "depth": gen.depth,
-                                "invariants": ["ImplSafe", "AsWritten"], "predicates": ds["npreds"], "layouts": sorted(ds["layouts"]),
-                                "rows": len(ds["rows"]), "cases": len(cases),
-                                "actions_fired": {k: v[0] for k, v in gen.coverage.items()},
-                                "cases_where_as_written_model_breaks_PropExact": model_breaks})
-    ctx.note("tlc_repaired_variant", {"cfg": "MC_small_fixed.cfg", "distinct": fixed.distinct, "generated": fixed.generated,
-                                      "depth": fixed.depth, "invariants": ["ImplSafe", "PropExact"]})
-    if cand is not None:
-        ctx.note("tlc_candidate", {"cfg": "Cand_small.cfg", "violated": cand.violated,
-                                   "counterexample": "\n".join(cand.counterexample or [])[:1500]})
+    if model_breaks:
+        raise InfraError("the model of the current code breaks PropExact in %d emitted cases although TLC accepted it" % model_breaks)
+    ctx.note("tlc_model_check", {"cfg": "Gen_%s.cfg" % size, "distinct": gen.distinct, "generated": gen.generated, "depth": gen.depth,
+                                 "invariants": ["ImplSafe", "PropExact"], "predicates": ds["npreds"], "layouts": sorted(ds["layouts"]),
+                                 "rows": len(ds["rows"]), "cases": len(cases),
+                                 "actions_fired": {k: v[0] for k, v in gen.coverage.items()}})
+    ctx.note("tlc_negative_control", {"cfg": "Neg_small.cfg", "variant": "Keep=not_p (behaviour before fix f4599fa)", "violated": neg.violated,
+                                      "states_until_counterexample": neg.distinct})
     # vacuity of the generated set: every file class (which of T/F/N occur in a file) must be present
     classes = set()
     for c in cases:
@@ -82,7 +78,7 @@ def run(ctx):
     groups = {}
     for c in cases:
         groups.setdefault((c["lay"], "".join(c["tv"])), []).append(c)
-    per, cap = (1, 400) if ctx.quick() else (2, 5000)
+    per, cap = (1, 800) if ctx.quick() else (2, 9000)
     chosen = []
     for k in sorted(groups):
         g = groups[k]
